@@ -115,8 +115,36 @@ pub type DexApp = App<
     DistributionKeeper,
     IbcFailingModule,
     GovFailingModule,
-    StargateMock,
+    FlakyStargate,
 >;
+
+/// The token-factory mock behind a switch: while `queries_off` is set, every stargate / gRPC QUERY fails (a query path that
+/// is not — or no longer — whitelisted for contracts), messages keep working and keep charging their fees.
+pub struct FlakyStargate {
+    pub inner: StargateMock,
+    pub queries_off: Rc<std::cell::Cell<bool>>,
+}
+
+impl cw_multi_test::Stargate for FlakyStargate {
+    fn execute_stargate<ExecC, QueryC>(&self, api: &dyn Api, storage: &mut dyn Storage, router: &dyn CosmosRouter<ExecC = ExecC, QueryC = QueryC>,
+        block: &BlockInfo, sender: Addr, type_url: String, value: cosmwasm_std::Binary) -> AnyResult<AppResponse>
+    where ExecC: CustomMsg + DeserializeOwned + 'static, QueryC: CustomQuery + DeserializeOwned + 'static {
+        self.inner.execute_stargate(api, storage, router, block, sender, type_url, value)
+    }
+    fn execute_any<ExecC, QueryC>(&self, api: &dyn Api, storage: &mut dyn Storage, router: &dyn CosmosRouter<ExecC = ExecC, QueryC = QueryC>,
+        block: &BlockInfo, sender: Addr, msg: cosmwasm_std::AnyMsg) -> AnyResult<AppResponse>
+    where ExecC: CustomMsg + DeserializeOwned + 'static, QueryC: CustomQuery + DeserializeOwned + 'static {
+        self.inner.execute_any(api, storage, router, block, sender, msg)
+    }
+    fn query_stargate(&self, api: &dyn Api, storage: &dyn Storage, querier: &dyn cosmwasm_std::Querier, block: &BlockInfo, path: String, data: cosmwasm_std::Binary) -> AnyResult<cosmwasm_std::Binary> {
+        if self.queries_off.get() { anyhow::bail!("'{path}' path is not allowed from the contract"); }
+        self.inner.query_stargate(api, storage, querier, block, path, data)
+    }
+    fn query_grpc(&self, api: &dyn Api, storage: &dyn Storage, querier: &dyn cosmwasm_std::Querier, block: &BlockInfo, request: cosmwasm_std::GrpcQuery) -> AnyResult<cosmwasm_std::Binary> {
+        if self.queries_off.get() { anyhow::bail!("'{}' path is not allowed from the contract", request.path); }
+        self.inner.query_grpc(api, storage, querier, block, request)
+    }
+}
 
 fn pm_contract() -> Box<dyn Contract<Empty>> {
     Box::new(
@@ -191,6 +219,8 @@ pub const BASE_DENOMS: [&str; 7] = ["uusdc", "ausdy", "uusdt", "udai", "uom", "u
 pub struct World {
     pub app: DexApp,
     pub fault: Rc<RefCell<FaultState>>,
+    /// switch of `FlakyStargate`
+    pub tf_queries_off: Rc<std::cell::Cell<bool>>,
     pub cfg: WorldCfg,
     /// short name -> real address
     pub addr: BTreeMap<String, Addr>,
@@ -206,6 +236,7 @@ impl World {
             addr.insert(u.to_string(), api.addr_make(u));
         }
         let fault = Rc::new(RefCell::new(FaultState::default()));
+        let tf_queries_off = Rc::new(std::cell::Cell::new(false));
         let bank = FaultyBank { inner: BankKeeper::new(), state: fault.clone() };
         let initial: Vec<Coin> = BASE_DENOMS.iter().map(|d| coin(u128::MAX / 1_000_000, *d)).collect();
         let users: Vec<Addr> = USERS.iter().map(|u| addr[*u].clone()).collect();
@@ -213,7 +244,7 @@ impl World {
             .with_api(api)
             .with_wasm(WasmKeeper::default())
             .with_bank(bank)
-            .with_stargate(StargateMock::new(cfg.tf_fees.clone()))
+            .with_stargate(FlakyStargate { inner: StargateMock::new(cfg.tf_fees.clone()), queries_off: tf_queries_off.clone() })
             .build(|router, _api, storage| {
                 for u in users.iter() {
                     router.bank.inner.init_balance(storage, u, initial.clone()).unwrap();
@@ -306,7 +337,7 @@ impl World {
         let name = addr.iter().map(|(k, v)| (v.to_string(), k.clone())).collect();
         fault.borrow_mut().calls = 0;
         fault.borrow_mut().log.clear();
-        World { app, fault, cfg, addr, name }
+        World { app, fault, tf_queries_off, cfg, addr, name }
     }
 
     pub fn a(&self, name: &str) -> Addr {
